@@ -40,7 +40,8 @@ TAIL_MIN = 1024
 # file generation
 
 ALPHABETS = [["a", "b"], ["0", "1"], ["x", "y", "z", ""], ["a", "b", "c", "", "dd"], ["1", "2", "10", "02", ""],
-             ["u", "\xe9", "\xfc", " "], ["yes", "no", ""], ["A", "a", "B", "b"], ["", "", "1"], ["k"]]
+             ["u", "\xe9", "\xfc", " "], ["yes", "no", ""], ["A", "a", "B", "b"], ["", "", "1"], ["k"],
+             ["a", " a", "a ", "b"], ["", " ", "x", "\t"]]
 SPECIAL = ["a,b", "x,y,z", 'say "hi"', '"', ' pad ', "semi;colon", "tab\there", "it's", ",", '""', "\xa0", "q\x85r", "a b",
            "\u65e5\u672c", "\U0001f600", "\u2028"]
 NAMESETS = [lambda k: "f%d" % k, lambda k: "col_%d" % k, lambda k: "x" + "abcdefg"[k], lambda k: "F %d" % k,
@@ -211,6 +212,29 @@ def gen_case(rng, family):
             "final_newline": final_newline, "features": feats}
 
 
+def small_scope():
+    """Exhaustive small scope (thorough tier): every file of up to 4 data lines over five line kinds (three good rows, a
+    one-field line, a blank line) x B in {1, 2} x s in {1, 2}; the mode alternates.  The tail rule cannot fire here; the
+    composition of selection, skipping, batch trigger, per-batch scores and median can."""
+    import itertools
+    kinds = ["a,0", "b,1", "a,1", "a", ""]
+    out = []
+    k = 0
+    for n in range(0, 5):
+        for seq in itertools.product(kinds, repeat=n):
+            for B in (1, 2):
+                for s in (1, 2):
+                    k += 1
+                    text = "x,label\n" + "".join(ln + "\n" for ln in seq)
+                    good = sum(1 for i, ln in enumerate(seq) if (i + 1) % s == 0 and ln.count(",") == 1)
+                    out.append({"text": text, "B": B, "s": s, "label": "label", "tro": "True" if k % 2 else "False",
+                                "heuristic": H_COV, "cap": 2 ** 15, "family": "small-scope", "ncols": 2, "nlines": n,
+                                "good_selected": good, "eol": "lf", "final_newline": True,
+                                "features": {"bad_selected": sum(1 for i, ln in enumerate(seq) if (i + 1) % s == 0 and ln.count(",") != 1),
+                                             "quoted": 0}})
+    return out
+
+
 def load_corpus():
     d = os.path.join(vlib.VERIF, "corpus", "E2E")
     out = []
@@ -370,8 +394,9 @@ def _msdiff(a, b):
 def diagnose(case, res, dval):
     """Names the first layer whose observable differs (informational text for the replay; the verdict is `compare`)."""
     try:
-        header, D, batches, invalid = dval
+        header, D, batches, invalid, parsed = dval
         header = [dec(h) for h in header]
+        parsed_rows = [[dec(c) for c in o[1]] for o in parsed if o is not None]
         ib = res.get("batches") or []
         cols = [b.get("columns") for b in ib if b.get("columns") is not None]
         if cols and cols[0] != header:
@@ -379,7 +404,18 @@ def diagnose(case, res, dval):
         msizes = [len(b[0]) for b in batches]
         isizes = [b["n"] for b in ib]
         if msizes != isizes:
-            return "layer streaming loop (C08: every s-th line, field-count test, mini-batches, tail rule): batch sizes implementation %s, model %s" % (isizes, msizes)
+            iflat = [r for b in ib for r in (b.get("rows") or [])]
+            mflat = [[dec(c) for c in r] for b in batches for r in b[0]]
+            j = next((i for i in range(min(len(iflat), len(mflat))) if iflat[i] != mflat[i]), min(len(iflat), len(mflat)))
+            foreign = next((r for r in iflat if r not in parsed_rows), None)
+            if foreign is not None:
+                return ("layer line parser (C16: csv.reader on physical lines): the implementation's batches contain the row %r, which is not the "
+                        "parse of any data line (batch sizes implementation %s, model %s)" % (foreign, isizes, msizes))
+            return ("layer streaming loop (C08: every s-th line, field-count test, mini-batches, tail rule) or line parser (C16, field "
+                    "counts): batch sizes implementation %s, model %s; invalid-line count implementation %s, model %d; consumed rows first "
+                    "differ at index %d: implementation %r, model %r" % (
+                        isizes, msizes, res.get("invalid_logged"), invalid, j, iflat[j] if j < len(iflat) else None,
+                        mflat[j] if j < len(mflat) else None))
         for k, (b, mb) in enumerate(zip(ib, batches)):
             mrows = [[dec(c) for c in r] for r in mb[0]]
             if b.get("rows") is not None and b["rows"] != mrows:
@@ -544,9 +580,13 @@ def check(run, replay):
         if run.tier == "quick":
             fams = ["tail"] * 9 + ["medium"] * 16 + ["small"] * 60 + ["none"] * 5
         else:
-            fams = ["tail"] * 36 + ["medium"] * 70 + ["small"] * 180 + ["none"] * 14
+            fams = ["tail"] * 120 + ["medium"] * 300 + ["small"] * 800 + ["none"] * 40
         for fam in fams:
             cases.append(gen_case(run.rng, fam))
+        if run.tier == "thorough":
+            cases.extend(small_scope())
+            run.cov["exhaustive_small_scope"] = ("every file of <= 4 data lines over {a,0 | b,1 | a,1 | a | blank} x B in {1,2} x s in {1,2} "
+                                                 "(3124 files) included")
     root = os.path.join(vlib.CACHE, "e2e", str(os.getpid()))
     with ThreadPoolExecutor(max_workers=2) as ex:      # the implementation and the model run side by side
         fi = ex.submit(run_cases, cases, root)
